@@ -35,9 +35,6 @@ func C19(c *core.Ctx) {
 	writers := map[*ssa.Function]bool{}
 	for _, s := range sinks {
 		tf := topFunc(s.fn)
-		if c.Prop == "C19" && isDeprecatedIndels(tf) {
-			continue
-		}
 		perFn[tf]++
 		writers[tf] = true
 		key := fmt.Sprintf("B1/%s/write#%d", fnKey(tf), perFn[tf])
@@ -95,14 +92,11 @@ func C19(c *core.Ctx) {
 	sort.Slice(wl, func(i, j int) bool { return fnKey(wl[i]) < fnKey(wl[j]) })
 	nprop := 0
 	for _, f := range wl {
-		if errResultIndex(f.Signature) < 0 || (c.Prop == "C19" && isDeprecatedIndels(f)) {
+		if errResultIndex(f.Signature) < 0 {
 			continue
 		}
 		sites := p.callers[f]
 		for k, s := range sites {
-			if isDeprecatedIndels(topFunc(s.Parent())) {
-				continue
-			}
 			nprop++
 			key := fmt.Sprintf("B2/%s/called-from/%s#%d", fnKey(f), fnKey(s.Parent()), k+1)
 			if _, isCall := s.(*ssa.Call); !isCall {
@@ -261,9 +255,6 @@ func checkErrorExaminedBeforeNextWrite(c *core.Ctx, p *progFacts, sinks []sink) 
 	perFn := map[*ssa.Function]int{}
 	for _, s := range sinks {
 		tf := topFunc(s.fn)
-		if c.Prop == "C19" && isDeprecatedIndels(tf) {
-			continue
-		}
 		ev := errValueOf(s.call)
 		if ev == nil {
 			continue // B1 reports it
